@@ -198,11 +198,27 @@ impl Scenario for CtrJump {
                 }
                 _ => {}
             }
-            // invariant through the hook getter: counter == ceil(position / 64)
+            // invariant through the hook getter: the counter is the index of the next block to generate,
+            // i.e. ceil(position / 64); exactly on a block boundary an implementation that refills eagerly
+            // is one ahead, which is accepted too (the keystream is what the property constrains)
             let want_ctr = blk.wrapping_add(if off > 0 { 1 } else { 0 }) & mask;
             let got_ctr = real.counter();
-            if got_ctr != want_ctr {
+            let eager_ok = off == 0 && op.k != K_JUMP && got_ctr == (blk.wrapping_add(1) & mask);
+            if got_ctr != want_ctr && !eager_ok {
                 return Err(Violation::new("counter-invariant", i, format!("{:#x}", want_ctr), format!("{:#x}", got_ctr), format!("{}: block counter after op (model position block {:#x} offset {})", sp.v.name, blk, off)));
+            }
+        }
+        // end of run: whatever state the history left must show in the keystream: continue for two more
+        // block boundaries (never across 2^64 blocks)
+        let n = t.ops.len();
+        if blk < u64::MAX - 4 || f.counter_bits() == 32 {
+            let ks = keystream(f, &sp.key, &sp.nonce, blk, off, 130, sp.rounds);
+            let mut buf = [0u8; 130];
+            guarded(|| real.process_mut(&mut buf)).map_err(|m| Violation::new("unexpected-panic", n, "process_mut", m, sp.v.name))?;
+            obs.out(&buf);
+            if buf[..] != ks[..] {
+                let firstbad = buf.iter().zip(ks.iter()).position(|(a, b)| a != b).unwrap_or(0);
+                return Err(Violation::bytes("stream-mismatch", n, &ks, &buf, format!("{} R={} key{}: end-of-run continuation of 130 bytes at block {:#x}+{} differs from the specified keystream (first at byte {})", sp.v.name, sp.rounds, sp.key.len() * 8, blk, off, firstbad)));
             }
         }
         Ok(())
